@@ -112,6 +112,18 @@ var shapes = map[string][]seriesDef{
 	},
 }
 
+// shape "wide": 65538 series of one metric with one sum field: the series ids cross the 65535/65536 boundary, the
+// rolled-up block spans two roaring containers (merger loops over high keys).
+const wideSeries = 65538
+
+func init() {
+	w := make([]seriesDef, 0, wideSeries)
+	for i := 0; i < wideSeries; i++ {
+		w = append(w, seriesDef{"mw", fmt.Sprintf("h%05d", i), []fieldDef{{"fsum", "sum"}}})
+	}
+	shapes["wide"] = w
+}
+
 // slot patterns inside the source family (360 slots of 10s; ratio 30 for 5m, 360 for 1h)
 var slotPatterns = map[string][]int{
 	"s0":         {0},
